@@ -50,7 +50,7 @@ def gen_async_node(rng, kinds):
                 "key": rng.choice([["modk", 2], ["modk", 3], ["id"], ["bucketNone", 2], ["bucketNone", 3]]),
                 "keep": rng.choice(["first", "last"])}
     if k == "partition_timeout":
-        return {"kind": "partition_timeout", "n": rng.choice([2, 3]), "timeout": rng.choice([1, 2]), "key": rng.choice([None, None, ["modk", 2]])}
+        return {"kind": "partition_timeout", "n": rng.choice([2, 3]), "timeout": rng.choice([1, 1, 2, 2, 0]), "key": rng.choice([None, None, ["modk", 2]])}     # (timeout=0: flushed at once)
     if k == "latest":
         return {"kind": "latest"}
     raise KeyError(k)
